@@ -1111,6 +1111,10 @@ class Collocator:
                     )
                     for dim in output[name].get_index("collocation").names
                 ])
+                # Recent xarray versions refuse to overwrite the coordinate
+                # of a MultiIndex, it has to be removed explicitly:
+                output[name] = output[name].reset_index(
+                    "collocation", drop=True)
 
             # Okay, actually we want to get rid of the main coordinate. It
             # should stay as a dimension name but without own labels. I.e. we
